@@ -34,7 +34,7 @@ returns an entry of the map); the memoisation; termination of the cast closure (
 import re
 
 from vlib.verus import VerusFile, Contract, Clause, sub, lit, rule, Undecided, split_fn, replace_arm
-from vlib.extract import match_close, AnchorLost, split_arms
+from vlib.extract import match_close, AnchorLost, split_arms, strip_docs
 from units import _tree
 from units import c18_semantic as S
 from units import c07_lift as L7
@@ -63,7 +63,8 @@ DROPPED = [
     "(R14 stubs): optimality / which candidate survives is NOT examined, by design",
     "insert_elem_closure: termination (rests on the f64 cost order) NOT verified (exec_allows_no_decreases_clause)",
     "compile_binary / compile_tern: `for x in map.values_mut()` -> loop over the candidates of the map (stub candidates_of: each is an entry of the map); the assignments "
-    "`x.comp_ext_data.branch_prob = Some(w)` -> touch_branch_prob (may change every candidate's cost data, no candidate's `ms`)",
+    "`x.comp_ext_data.branch_prob = Some(w)` -> touch_branch_prob (may change every candidate's cost data, no candidate's `ms`); the loop variables and the locals named in "
+    "invariants / ghost asserts are read off the text; `let [a, b] = weights;` (if present) -> `let a = weights[0]; let b = weights[1];` (R7-array-pattern: Verus has no slice patterns)",
     "CompilerExtData (all f64), CompilationKey::from_type, AstElemExt::cost_1d, Type / ExtData casts and type_check: opaque / contract-free stubs (annotations: unit c05_ctors)",
     "Miniscript::{pk_k, pk_h, after, older, sha256, hash256, ripemd160, hash160, multi, multi_a, TRUE, FALSE, from_components_unchecked}: consumed through the clause `node` / `frame` "
     "proved in unit c05_ctors",
@@ -310,6 +311,18 @@ def values_loop(prefix, map_expr, var, tag, inv, pre=""):
                 "                    invariant\n%(inv)s\n                {\n%(pre)s" % dict(t=tag, m=map_expr, v=var, inv=inv, pre=pre))
         return text[:b.stmt_start] + head + text[b.start:b.end] + "\n                }\n" + text[b.stmt_end:]
     return rw
+
+
+def _array_let(m):
+    names = [x.strip() for x in m.group(1).split(",") if x.strip()]
+    return " ".join("let %s = %s[%d];" % (n, m.group(2), i) for i, n in enumerate(names) if n != "_")
+
+
+# R7-array-pattern: `let [a, b] = ARR;` (Verus: "slice patterns" unsupported) -> `let a = ARR[0]; let b = ARR[1];`.  Only plain binders (`x`, `mut x`,
+# `_`) and a plain place expression ARR (a path: evaluating it twice has no effect).  For an irrefutable `let` rustc has already checked that the
+# pattern has exactly the array's length; by-value binding of the elements = copying them out (the elements are `Copy`: otherwise the indexed
+# form does not compile and the unit is UNDECIDED).  Optional: the text of /repo indexes the array directly.
+ARRAY_LET = sub("R7-array-pattern", r"\blet\s*\[\s*((?:(?:mut\s+)?\w+\s*,\s*)*(?:mut\s+)?\w+\s*,?)\s*\]\s*=\s*([A-Za-z_][\w.]*)\s*;", _array_let, required=False)
 
 
 # ---- the three helper macros of best_compilations, expanded MECHANICALLY (code inside a macro invocation is invisible to Verus' syntax
@@ -804,7 +817,9 @@ def build(repo):
     ]))
     register_named_invariants(vf, "insert_best_wrapped")
 
-    BRANCH = lambda var, m, w: sub("R9-cost(%s)" % var, r"%s\.comp_ext_data\.branch_prob = Some\(weights\[%d\]\);" % (var, w), "touch_branch_prob(%s, weights[%d]);" % (m, w))
+    # the weight expression is carried over verbatim (`weights[0]`, or a local bound to it): touch_branch_prob's contract does not depend on it
+    BRANCH = lambda var, m, w=None: sub("R9-cost(%s)" % var, r"\b%s\s*\.\s*comp_ext_data\s*\.\s*branch_prob\s*=\s*Some\(([^;]*)\)\s*;" % re.escape(var),
+                                        lambda mm: "touch_branch_prob(%s, %s);" % (m, mm.group(1).strip()))
     UNCH = lambda m: "ms_unchanged(old(%s)@, %s@)," % (m, m)
     REQ_CALL = "forall|x: Arc<Miniscript<Pk, Ctx>>, y: Arc<Miniscript<Pk, Ctx>>| call_requires(bin_func, (x, y))"
     # what the caller must establish: whatever node bin_func builds from a left and a right candidate means the policy
@@ -814,15 +829,27 @@ def build(repo):
               "                    " + UNCH("left_comp") + " " + UNCH("right_comp") + "\n"
               "                    " + REQ_CALL + ",\n                    " + REQ_MEAN + ",\n"
               "                    forall|i: int| 0 <= i < cb_l_vals@.len() ==> is_cand_of(old(left_comp)@, (#[trigger] cb_l_vals@[i]).ms),")
+    # the names of the two loop variables, of the local holding the left candidate's miniscript, of the node built by bin_func and of the new
+    # candidate are read off the text (structure, not spelling); a shape that is not recognised leaves the old literal name and the rewrite
+    # below reports the lost anchor
+    cb_text = strip_docs(repo.at(COMPILER, "fn:compile_binary").text)
+    def cb_name(pattern, default):
+        m = re.search(pattern, cb_text)
+        return m.group(1) if m else default
+    CB_L = cb_name(r"\bfor\s+(\w+)\s+in\s+left_comp\s*\.\s*values_mut\s*\(\s*\)", "l")
+    CB_R = cb_name(r"\bfor\s+(\w+)\s+in\s+right_comp\s*\.\s*values_mut\s*\(\s*\)", "r")
+    CB_LREF = cb_name(r"\blet\s+(\w+)\s*=\s*Arc::clone\(\s*&\s*%s\s*\.\s*ms\s*\)\s*;" % re.escape(CB_L), None)
     CB_INV_R = (CB_INV + "\n                    forall|i: int| 0 <= i < cb_r_vals@.len() ==> is_cand_of(old(right_comp)@, (#[trigger] cb_r_vals@[i]).ms),\n"
-                "                    is_cand_of(old(left_comp)@, l.ms), lref == l.ms,")
+                "                    is_cand_of(old(left_comp)@, %s.ms)," % CB_L + (" %s == %s.ms," % (CB_LREF, CB_L) if CB_LREF else ""))
     vf.fn(COMPILER, "fn:compile_binary", props=PROPS, rewrites=[
-        values_loop("for l in left_comp.values_mut()", "&*left_comp", "l", "cb_l", CB_INV, pre="                    proof { lemma_cand_unchanged(old(left_comp)@, left_comp@); }\n"),
-        values_loop("for r in right_comp.values_mut()", "&*right_comp", "r", "cb_r", CB_INV_R, pre="                    proof { lemma_cand_unchanged(old(right_comp)@, right_comp@); }\n"),
-        BRANCH("l", "left_comp", 0), BRANCH("r", "right_comp", 1),
+        ARRAY_LET,
+        values_loop("for %s in left_comp.values_mut()" % CB_L, "&*left_comp", CB_L, "cb_l", CB_INV, pre="                    proof { lemma_cand_unchanged(old(left_comp)@, left_comp@); }\n"),
+        values_loop("for %s in right_comp.values_mut()" % CB_R, "&*right_comp", CB_R, "cb_r", CB_INV_R, pre="                    proof { lemma_cand_unchanged(old(right_comp)@, right_comp@); }\n"),
+        BRANCH(CB_L, "left_comp"), BRANCH(CB_R, "right_comp"),
         lit("R7", "candidates_of(&cb_l_map)", "candidates_of(cb_l_map)"), lit("R7", "candidates_of(&cb_r_map)", "candidates_of(cb_r_map)"),
-        sub("R10-after-build", r"(let ast = bin_func\(Arc::clone\(&lref\), Arc::clone\(&rref\)\);)", r"\1" + "\n            proof { assert(t_means(ast, *policy)); }"),
-        sub("R10-after-binary", r"(if let Ok\(new_ext\) = AstElemExt::binary\(ast, l, r\) \{)", r"\1" + "\n                    proof {\n                        assert(ms_means(*new_ext.ms, *policy)); //@inv candidate_is_bin_func_of_a_left_and_a_right_candidate [C08]\n                    }"),
+        sub("R10-after-build", r"(let\s+(\w+)\s*=\s*bin_func\([^;]*\);)", lambda m: m.group(1) + "\n            proof { assert(t_means(%s, *policy)); }" % m.group(2)),
+        sub("R10-after-binary", r"(if\s+let\s+Ok\((\w+)\)\s*=\s*AstElemExt::binary\([^;{]*\)\s*\{)",
+            lambda m: m.group(1) + "\n                    proof {\n                        assert(ms_means(*%s.ms, *policy)); //@inv candidate_is_bin_func_of_a_left_and_a_right_candidate [C08]\n                    }" % m.group(2)),
     ] + T8.F64, contract=Contract(
         requires=[MEANS % "old(ret)", REQ_CALL, REQ_MEAN],
         ensures=[
@@ -844,7 +871,7 @@ def build(repo):
         values_loop("for a in a_comp.values_mut()", "&*a_comp", "a", "ct_a", CT_A.rstrip("\n"), pre="                    proof { lemma_cand_unchanged(old(a_comp)@, a_comp@); }\n"),
         values_loop("for b in b_comp.values_mut()", "&*b_comp", "b", "ct_b", CT_B.rstrip("\n"), pre="                    proof { lemma_cand_unchanged(old(b_comp)@, b_comp@); }\n"),
         values_loop("for c in c_comp.values_mut()", "&*c_comp", "c", "ct_c", CT_C.rstrip("\n"), pre="                    proof { lemma_cand_unchanged(old(c_comp)@, c_comp@); }\n"),
-        BRANCH("a", "a_comp", 0), BRANCH("b", "b_comp", 0), BRANCH("c", "c_comp", 1),
+        BRANCH("a", "a_comp"), BRANCH("b", "b_comp"), BRANCH("c", "c_comp"),
     ] + [lit("R7", "candidates_of(&ct_%s_map)" % x, "candidates_of(ct_%s_map)" % x) for x in "abc"] + [
         sub("R10-after-build", r"(let ast = Terminal::AndOr\(Arc::clone\(&aref\), Arc::clone\(&bref\), Arc::clone\(&cref\)\);)", r"\1" + "\n                proof { assert(is_cand_of(old(c_comp)@, c.ms)); assert(t_means(andor_node(aref, bref, cref), *policy)); }", required=False),
         sub("R10-after-ternary", r"(if let Ok\(new_ext\) = AstElemExt::ternary\(ast, a, b, c\) \{)", r"\1" + "\n                    proof {\n                        assert(ms_means(*new_ext.ms, *policy)); //@inv candidate_is_andor_of_a_b_c_in_this_order [C08]\n                    }"),
